@@ -16,7 +16,8 @@ FINISH = dict(
     level="proof",
     trusted_base=[
         "Lean 4.33 kernel; axioms of every theorem within {propext, Classical.choice, Quot.sound}",
-        "py/gen.py source scan for danger_accept_invalid_* / tls_built_in_*_certs(false) (Gen/Trust.lean)",
+        "py/gen.py source scan for danger_accept_invalid_* / tls_built_in_*_certs(false) and for every place that adds trust "
+        "anchors or switches the TLS back end (Gen/Trust.lean: dangerCalls, builtinRootsDisabled, rootAdders)",
         "the real daemon against a TLS-wrapped mock CA whose chains are issued by vhelper (OpenSSL)",
         "modelled, NOT verified: X.509 path and host-name validation (native-tls / OpenSSL) is an "
         "uninterpreted predicate of the model; the runs validate its wiring on the 4 chain kinds",
